@@ -60,7 +60,14 @@ def main():
 
     # ---- 3/4. correspondence + property on the real code
     t0 = time.time()
-    cases = mod.gen_cases(seed, tier)
+    try:
+        cases = mod.gen_cases(seed, tier)
+    except Exception as e:
+        import traceback
+        rep.broken('case-generation', {'exception': type(e).__name__, 'traceback': traceback.format_exc()[-2500:]})
+        cases = []
+    if common.TRANSLATOR_ERRORS:
+        rep.broken('translator', {'refusals': list(common.TRANSLATOR_ERRORS)})
     log('[%s] %d cases generated in %.1fs' % (pid, len(cases), time.time() - t0))
     t0 = time.time()
     secs = getattr(mod, 'CASE_TIMEOUT', 5.0)
